@@ -196,7 +196,7 @@ fn pull() -> BoxedStrategy<Pull> {
 }
 
 pub fn run(ctx: &Ctx, rep: &Report) {
-    run_prop(ctx, rep, "pullers", ctx.tier.pick(450, 9_000), &|| pull(), &check);
+    run_prop(ctx, rep, "pullers", ctx.tier.pick(450, 30_000), &|| pull(), &check);
 }
 
 pub fn replay(sub: &str, case: &Value) -> Result<(), Fail> {
